@@ -407,7 +407,13 @@ def run_job(job, base):
     steps = [{'ev': 'Init', 'args': args_of({}, cur), 'st': proj.delta(cur, True), 'obs': obs0()}]
     done = []
 
+    skipped = []
+
     def play(e):
+        if e['ev'] == 'Bump' and cur[e['lvl']] == int(e['to']):
+            # input not applicable: the real reset already left this version (the model leaves the winner open)
+            skipped.append(len(steps))
+            return
         args = args_of(e, cur)
         obs = perform(e, cur)
         done.append(dict(args, ev=e['ev']))
@@ -420,7 +426,7 @@ def run_job(job, base):
             play(e)
     DBI().close()
     shutil.rmtree(d, True)
-    return {'tid': job['id'], 'metric_vals': METRIC_VALS, 'chunk': chunk, 'steps': steps}
+    return {'tid': job['id'], 'metric_vals': METRIC_VALS, 'chunk': chunk, 'skipped': len(skipped), 'steps': steps}
 
 
 METRIC_VALS = list(dawgie.util.MetricStateVector(dawgie.METRIC(0, 0, 0, 0, 0, 0, 0), dawgie.METRIC(0, 0, 0, 0, 0, 0, 0)).keys())
